@@ -414,6 +414,7 @@ class MetaAppClock(MetaClock):
             if _libsc3.main is _libsc3.RtMain:
                 cls._sched_lock = _libsc3.main._main_lock
                 cls._tick_cond = threading.Condition()
+                cls._tick_signal = False  # Set by notifiers, keeps early notifications.
                 cls._scheduler = Scheduler(cls, drift=True, recursive=False)
                 cls._thread = threading.Thread(
                     target=cls._run,
@@ -463,7 +464,9 @@ class AppClock(Clock, metaclass=MetaAppClock):
             with cls._tick_cond:  # many notify one wait
                 if not cls._run_sched:
                     return
-                cls._tick_cond.wait(seconds)  # if seconds is None waits for notify
+                if not cls._tick_signal:
+                    cls._tick_cond.wait(seconds)  # if seconds is None waits for notify
+                cls._tick_signal = False
 
     @classmethod
     def clear(cls):
@@ -493,6 +496,7 @@ class AppClock(Clock, metaclass=MetaAppClock):
             with cls._sched_lock:
                 cls._scheduler.sched(delta, item)
             with cls._tick_cond:
+                cls._tick_signal = True
                 cls._tick_cond.notify()
 
     @classmethod
